@@ -407,7 +407,11 @@ func (ufs *Ufs) Create(req *SrvReq) {
 	}
 
 	path := fid.path + "/" + tc.Name
-	var e error
+	// only an entry that is known not to have been there is taken away
+	// again if the request fails later
+	_, e := os.Lstat(path)
+	existed := !os.IsNotExist(e)
+	e = nil
 	var file *os.File
 	switch {
 	case tc.Perm&DMDIR != 0:
@@ -450,25 +454,37 @@ func (ufs *Ufs) Create(req *SrvReq) {
 		file, e = os.OpenFile(path, omode2uflags(tc.Mode)|os.O_CREATE, os.FileMode(mode))
 	}
 
+	// from here on a failure must take the new entry away again: the
+	// client is told that nothing was created
+	made := e == nil && !existed
+
 	// a new symbolic link is not opened: that would follow it, and fail
 	// after the link has been made if its target does not exist
 	if file == nil && e == nil && tc.Perm&DMSYMLINK == 0 {
 		file, e = os.OpenFile(path, omode2uflags(tc.Mode), 0)
 	}
 
+	var st os.FileInfo
+	if e == nil {
+		st, e = os.Lstat(path)
+	}
+
 	if e != nil {
+		if file != nil {
+			_ = file.Close()
+		}
+
+		if made {
+			_ = os.Remove(path)
+		}
+
 		req.RespondError(toError(e))
 		return
 	}
 
 	fid.path = path
 	fid.file = file
-	err = fid.stat()
-	if err != nil {
-		req.RespondError(err)
-		return
-	}
-
+	fid.st = st
 	req.RespondRcreate(dir2Qid(fid.st), 0)
 }
 
